@@ -16,7 +16,8 @@ CONTEXTS = ('return', 'assign', 'expr', 'if', 'try', 'with', 'listcomp', 'genexp
             'nested-shadow-kw', 'nested-shadow-kw-posonly', 'nested-shadow-va-posonly',
             'nested-shadow-kw-kwonly', 'nested-shadow-va-kwonly', 'nested-shadow-kw-varkw', 'nested-shadow-va-vararg',
             'lambda-shadow-kw-kwonly', 'lambda-shadow-va',
-            'except-handler', 'try-else', 'finally', 'for-body', 'while-body', 'match-case', 'ternary', 'with-as')
+            'listcomp-target-shadows-kw', 'genexp-target-shadows-va', 'dictcomp-target-shadows-kw',
+            'loop-assign', 'except-handler', 'try-else', 'finally', 'for-body', 'while-body', 'match-case', 'ternary', 'with-as')
 # further statement contexts given as a template around the call (one call site each)
 TEMPLATES = {'except-handler': 'try:\n    raise ValueError()\nexcept ValueError as _exc:\n    return %s',
              'try-else': 'try:\n    pass\nexcept ValueError:\n    raise\nelse:\n    return %s',
@@ -36,7 +37,11 @@ SHADOWS = {'nested-shadow-kw': ('vk', 'def _inner(kwargs):\n    return %s\nretur
            'nested-shadow-kw-varkw': ('vk', 'def _inner(**kwargs):\n    return %s\nreturn _inner()'),
            'nested-shadow-va-vararg': ('va', 'def _inner(*args):\n    return %s\nreturn _inner()'),
            'lambda-shadow-kw-kwonly': ('vk', 'return (lambda *, kwargs: %s)(kwargs={})'),
-           'lambda-shadow-va': ('va', 'return (lambda args: %s)(())')}
+           'lambda-shadow-va': ('va', 'return (lambda args: %s)(())'),
+           # comprehension targets are bound before the element is evaluated
+           'listcomp-target-shadows-kw': ('vk', 'return [%s for kwargs in ({},)][0]'),
+           'genexp-target-shadows-va': ('va', 'return list(%s for args in ((),))[0]'),
+           'dictcomp-target-shadows-kw': ('vk', 'return {0: %s for kwargs in ({},)}[0]')}
 ROUTES = ('global', 'closure', 'closure-shadowing-global', 'attribute', 'self', 'param-partial', 'wraps')
 UNRESOLVABLE = ('missing-global', 'non-callable', 'unset-attribute')
 DECLARED = ('declared-function', 'declared-method', 'declared-method-dotted', 'declared-super', 'declared-apply-super')
@@ -73,6 +78,14 @@ TAINTS_KW = (
     ('kw-with-as', 'with CM({}) as kwargs:\n    pass'),
     ('kw-walrus', '(kwargs := {})'),
     ('kw-nonlocal', 'def _rebind():\n    nonlocal kwargs\n    kwargs = {}\n_rebind()'),
+    # mutation reached through a nested scope, a default value, a decorator expression or a bound method
+    ('kw-nested-def-mutates-then-called', "def _g():\n    kwargs.pop('%s', None)\n_g()" % FOREIGN_KW),
+    ('kw-nested-def-hands-off-then-called', 'def _g():\n    observe(kwargs)\n_g()'),
+    ('kw-default-alias-mutated', 'def _g(d=kwargs):\n    d.clear()\n_g()'),
+    ('kw-kwonly-default-alias-mutated', 'def _g(*, d=kwargs):\n    d.clear()\n_g()'),
+    ('kw-lambda-default-alias-mutated', '_g = lambda d=kwargs: d.clear()\n_g()'),
+    ('kw-decorator-expression-mutates', "@(lambda _v: (lambda _f: _f))(kwargs.pop('%s', None))\ndef _g():\n    pass" % FOREIGN_KW),
+    ('kw-bound-method-alias', "_p = kwargs.pop\n_p('%s', None)" % FOREIGN_KW),
 )
 TAINTS_VA = (
     ('va-rebind-slice', 'args = args[1:]'),
@@ -214,7 +227,7 @@ def draw(cfg):
     elif group == 'contexts':
         forms = ('pristine', 'absent')
     elif group == 'taints':
-        contexts = ('assign',); routes = ('global',); forms = ('pristine', 'absent'); taints = True
+        contexts = ('assign', 'loop-assign'); routes = ('global',); forms = ('pristine', 'absent'); taints = True
     elif group == 'unresolvable':
         routes = ('global',); forms = ('pristine', 'absent'); unres_on = True
     elif group == 'full':
@@ -257,7 +270,7 @@ def draw(cfg):
     context = contexts[sym.pick(len(contexts), 'context')] if len(contexts) > 1 else contexts[0]
     taint = None
     taint_after = False
-    if taints and context == 'assign':
+    if taints and context in ('assign', 'loop-assign'):
         table = [None]
         if ospec.va:
             table += [('va',) + t for t in TAINTS_VA]
@@ -283,7 +296,8 @@ def assemble(p, ospec, cspec, k, names, va_form, vk_form, route, context, taint,
     if taint is not None:
         star, tname, ttext = taint
         p.features.append('taint:%s:%s' % (tname, 'after' if taint_after else 'before'))
-        if star is not None and not taint_after and eff[star] in ('pristine', 'doubled'):
+        # (in a loop body a statement after the call runs before the call of the next iteration)
+        if star is not None and (not taint_after or context == 'loop-assign') and eff[star] in ('pristine', 'doubled'):
             eff[star] = 'tainted'
     else:
         p.features.append('taint:none')
@@ -349,6 +363,14 @@ def assemble(p, ospec, cspec, k, names, va_form, vk_form, route, context, taint,
             stmts.append(taint[2])
         stmts.append('return result')
         body = '\n'.join(stmts)
+    elif context == 'loop-assign':
+        stmts = []
+        if taint is not None and not taint_after:
+            stmts.append(taint[2])
+        stmts.append('result = ' + call)
+        if taint is not None and taint_after:
+            stmts.append(taint[2])
+        body = 'result = None\nfor _i in (0, 1):\n%s\nreturn result' % _indent('\n'.join(stmts))
     elif context == 'expr':
         body = call + '\nreturn None'
     elif context == 'if':
